@@ -12,6 +12,9 @@ pub mod metainherit;
 pub mod tokvals;
 pub mod tablekern;
 pub mod glrspan;
+// forestdec.rs (C03 index decoding on the sliced gss.rs types) is kept in the tree but not
+// compiled: no template finishes within 15 minutes (recursive solutions() over symbolic
+// node pointers); see DESIGN.md §2.
 
 /// `std::env::var_os` stub: the dev-profile `log!` macro of the runtime consults
 /// `RUSTEMO_TRACE` on every call; tracing is not a subject of any property.
